@@ -419,6 +419,23 @@ class Model:
                     bad("read-changed", f"reading .{op[1]} changed the observable state to {obs.describe()}")
                 if op[1] in ("array", "xarray") and not (val.shape == acc.shape and np.array_equal(val, acc)):
                     bad("read-value", f".{op[1]} returned {val.tolist()} but the accumulated charge is {acc.tolist()}")
+                if op[1] == "xarray":
+                    # an exported report is a record of the charge at the time of the call: charge added afterwards must
+                    # not appear in it (checked on a copy of the object, array additions and - if clusters are held -
+                    # a doubling of the clusters)
+                    probe = copy.deepcopy(st.real)
+                    try:
+                        rep = probe.to_xarray()
+                        snap = np.array(rep.values, dtype=float, copy=True)
+                        probe.add_charge_array(make_array("ones"))
+                        self._do(probe, ["upd", "number"], [])
+                        probe.add_charge_array(make_array("single"))
+                        if not np.array_equal(np.asarray(rep.values, dtype=float), snap):
+                            bad("report-follows-later-additions", f"the DataArray returned by to_xarray() was {snap.tolist()} "
+                                f"when it was returned and reads {np.asarray(rep.values).tolist()} after charge was added "
+                                "to the container afterwards")
+                    except Exception:  # noqa: BLE001  (failures of these operations are judged by their own transitions)
+                        pass
                 if op[1] == "frame" and _rk(val) != _rk(before.rows):
                     bad("read-value", f".frame returned {val} for {before.describe()}")
         elif name == "empty":
